@@ -514,6 +514,33 @@ def gen_case(rng, malformed=False):
     ref = Ref(case)
     natt = rng.randint(1, 6)
     retry = None
+    # input pattern: two failing attempts that consume different numbers of inputs (so that unread re-offered
+    # inputs and freshly consumed ones are both pending at the second abort), then the inputs are read in order
+    inputs = [d for d in res if d["kind"] in ("inchan", "custominchan", "tcp_local", "relaxed_local")]
+    if inputs and not malformed and rng.random() < 0.6:
+        d = rng.choice(inputs)
+        path = [0] if d["kind"] in ("tcp_local", "relaxed_local") else []
+        n1 = rng.randint(2, 4)
+        n2 = rng.randint(1, n1 - 1)
+        vals = [rng.choice([41, 42, 43, "p", "q"]) for _ in range(n1 + rng.randint(0, 1))]
+        if d["kind"] in ("tcp_local", "relaxed_local"):
+            env0 = [["pushb", d["name"], vals[:2]], ["pushb", d["name"], vals[2:]]] if len(vals) > 2 else [["pushb", d["name"], vals]]
+        else:
+            env0 = [["push", d["name"], v] for v in vals]
+        have = len(ref.state[d["name"]]["q"])
+        fail = lambda: rng.choice([("await", None), ("pcfail", None)])
+        for k, (n, last) in enumerate([(n1, False), (n2, False), (min(have + len(vals), n1 + 1), True)]):
+            at = {"env": env0 if k == 0 else [], "ops": [["r", d["name"], path] for _ in range(n)], "fault": None, "pcfail": []}
+            if not last:
+                if rng.random() < 0.5:
+                    at["ops"].append(["await", False])
+                else:
+                    at["pcfail"] = [d["name"]]
+            for ev in at["env"]:
+                ref.env(ev)
+            ref.attempt(dict(at, env=[]))
+            case["attempts"].append(at)
+        natt += 3
     while len(case["attempts"]) < natt:
         at = {"env": [], "ops": [], "fault": None, "pcfail": []}
         # environment
@@ -578,9 +605,46 @@ def gen_case(rng, malformed=False):
         case["attempts"].append(at)
         if out in (2, 3):
             break
-        if out == 1 and rng.random() < 0.7:
-            retry = [list(op) for op in at["ops"] if op != ["await", False]]
-            natt = max(natt, len(case["attempts"]) + 1)
+        if out == 1:
+            r = rng.random()
+            if r < 0.45:
+                retry = [list(op) for op in at["ops"] if op != ["await", False]]
+            elif r < 0.85:
+                # observe instead of retrying: touch everything the failed attempt wrote, so that anything it
+                # left behind (a stale buffer, a pending write, queued DB operations) shows up
+                obs_ops, seen = [], set()
+                for op in at["ops"]:
+                    if op[0] not in ("w", "wl"):
+                        continue
+                    name, kind = op[1], ref.kinds[op[1]]
+                    key = (name, json.dumps(op[2][:1]))
+                    if key in seen:
+                        continue
+                    seen.add(key)
+                    if kind in ("local", "persist", "dummy"):
+                        obs_ops.append(["r", name, []])
+                    elif kind == "shared":
+                        if not ref.state[name]["other"]:
+                            obs_ops.append(["r", name, []])
+                    elif kind in ("incmap_local", "incmap_persist", "hashmap_local"):
+                        if op[2] and (kind != "hashmap_local" or json.dumps(op[2][0]) in ref.state[name]["m"]):
+                            obs_ops.append(["r", name, op[2][:1]])
+                    elif kind == "filesystem":
+                        if op[2] and isinstance(op[2][0], str):
+                            if op[2][0] in ref.state[name]["files"]:
+                                obs_ops.append(["r", name, op[2][:1]])
+                            obs_ops.append(["w", name, [rng.choice(["f1", "f2", "f3"])], "obs"])
+                    elif kind == "plog":
+                        obs_ops.append(["w", name, [], R(cmd="log_concat", entries=T("obs"))])
+                        obs_ops.append(["r", name, []])
+                    elif kind in ("outchan",):
+                        obs_ops.append(["w", name, [], "obs"])
+                    elif kind == "tcp":
+                        obs_ops.append(["w", name, [0], "obs"])
+                if obs_ops:
+                    retry = obs_ops
+            if retry is not None:
+                natt = max(natt, len(case["attempts"]) + 1)
     else:
         # final observing section: every variable is read, every pending input is consumed
         ops = []
@@ -847,7 +911,7 @@ def run(ctx):
             if mm is None:
                 ctx.breaks.append({"what": "correspondence evaluation C01_cases did not compile", "detail": (out + err)[-3000:]})
                 break
-            for k in mm:
+            for k in mm[:3]:                 # show the model's answer for the first few only
                 c = part[k]
                 rc2, out2, _ = vlib.coq_eval("C01_one_%d" % os.getpid(), "From PGV Require Import C01.Model.\nOpen Scope string_scope.\n"
                                              "Definition c := %s.\nEval vm_compute in run_attempts (mk_ctx (fst (fst (fst c)))) (snd (fst (fst c))) (snd (fst c)).\n" % to_coq(c, c["_res"]))
